@@ -234,6 +234,67 @@ def rule_table(ctx: Ctx) -> None:  # noqa: C901
         ctx.add("1-table", load, load.node, "load" in got, f"`{k}` are read back from the recorded path(s)" if "load" in got else f"`{k}` are not reloaded from the recorded path(s)", key=f"reload {k}")
 
 
+def rule_whole_name_membership(ctx: Ctx) -> None:
+    """An output name is `str | tuple[str, ...]` (the tuple is the name of a multi-output function); the stores, shapes and the
+    names a caller asks for are keyed by the single names.  Testing the WHOLE name for membership in a collection of single names
+    is False for every multi-output function - its outputs are silently left out (never initialised, never loaded)."""
+    from ..flow import reaching_value
+
+    P = ctx.prog
+    ty = ctx.cg.typer
+
+    def alts(t):
+        return list(t.args) if t.kind == "union" else [t]
+
+    def str_and_tuple(t) -> bool:
+        a = alts(t)
+        return any(x.kind == "builtin" and x.name == "str" for x in a) and any(x.kind in ("tuple", "seq") for x in a)
+
+    def only_str_elements(t) -> bool:
+        els = []
+        for x in alts(t):
+            if x.kind == "none":
+                continue
+            if x.kind in ("seq", "set"):
+                els.append(x.elem())
+            elif x.kind == "map" and x.args:
+                els.append(x.args[0])
+            else:
+                return False
+        return bool(els) and all(e.kind == "builtin" and e.name == "str" for e in els)
+
+    n = 0
+    for f in P.functions.values():
+        if not f.module.name.startswith("pipefunc.map."):
+            continue
+        cfg = None
+        for cmp_ in walk_no_nested(f.node):
+            if not (isinstance(cmp_, ast.Compare) and len(cmp_.ops) == 1 and isinstance(cmp_.ops[0], (ast.In, ast.NotIn))):
+                continue
+            left, right = cmp_.left, cmp_.comparators[0]
+            if not str_and_tuple(ty.expr(f, left)) or not only_str_elements(ty.expr(f, right)):
+                continue
+            # the value that reaches THIS test (a name can be rebound to a single name by a loop further down)
+            if isinstance(left, ast.Name):
+                cfg = cfg or ctx.cfg(f)
+                use = cfg.node_containing(cmp_)
+                val = reaching_value(cfg, left.id, use) if use is not None else None
+                decl = [a_ for a_ in walk_no_nested(f.node) if isinstance(a_, ast.AnnAssign) and isinstance(a_.target, ast.Name) and a_.target.id == left.id and a_.value is val]
+                if val is None or not (decl or str_and_tuple(ty.expr(f, val))):
+                    continue
+            # an isinstance test of the name on the way narrows it
+            cfg = cfg or ctx.cfg(f)
+            use = cfg.node_containing(cmp_)
+            if use is not None and any(f"isinstance({norm(left)}" in t_ for t_, _p in guard_facts(cfg, Defs(f), use)):
+                continue
+            if any(isinstance(c_, ast.Call) and dotted(c_.func) == "isinstance" and c_.args and norm(c_.args[0]) == norm(left) for c_ in ast.walk(cmp_)):
+                continue
+            n += 1
+            ctx.add("1-table", f, cmp_, False, f"`{norm(cmp_)[:70]}` tests a whole output name (a tuple for a multi-output function) for membership in a collection of single names: "
+                    "it is never found for a multi-output function, whose outputs are then left out - they are not set up / not loaded, and the reader gets None instead of the stored data", key=f"whole-name {f.name} {norm(cmp_)[:50]}")
+    ctx.add("1-table", "pipefunc.map", "", True, f"membership tests of whole output names against single-name collections: {n} found", key="whole-name-scan")
+
+
 def rule_fresh_load(ctx: Ctx) -> None:
     """Every reload deserialises again: results are not served from a process-wide cache of mutable objects."""
     P = ctx.prog
@@ -394,6 +455,42 @@ def rule_process(ctx: Ctx) -> None:
     ser = sorted({dotted(c.func) for _f, c in Scope(ctx, ud).walk() if isinstance(c, ast.Call) and _last(dotted(c.func)) in ("dump", "dumps") and "." in dotted(c.func)})
     ctx.tri("3-process", ud, ud.node, ser == ["cloudpickle.dump"] or ser == ["cloudpickle.dumps"], any(x.startswith(("pickle.", "json.", "marshal.")) for x in ser),
             "values are serialised with cloudpickle only (objects of __main__ by value)", f"dump serialises with {ser}: objects defined in the writing script are stored by reference and cannot be loaded elsewhere", f"serialisers {ser}", key="cloudpickle-only")
+
+
+def rule_single_outputs_on_disk(ctx: Ctx) -> None:
+    """With a run folder, the output of a function without MapSpec is a FILE (nothing else persists it: the end-of-run persist
+    step only handles arrays).  Whether init_store hands out the file path or an in-memory DirectValue may therefore depend on
+    the run folder only - not on the array backend."""
+    from ..flow import bool_atoms
+
+    f = ctx.prog.func(f"{RI}.RunInfo.init_store")
+    d = Defs(f)
+    cfg = ctx.cfg(f)
+    sites = [c for c in ast.walk(f.node) if isinstance(c, ast.Call) and dotted(c.func).rsplit(".", 1)[-1] == "DirectValue"]
+    par = {id(c): p_ for p_ in ast.walk(f.node) for c in ast.iter_child_nodes(p_)}
+    n = 0
+    for c in sites:
+        atoms: list[str] = []
+        x: ast.AST = c
+        while id(x) in par:
+            child, x = x, par[id(x)]
+            if isinstance(x, ast.IfExp) and child is not x.test:
+                atoms += bool_atoms(d.resolve(x.test))
+        nd = cfg.node_containing(c)
+        if nd is not None:
+            for test, _truth in cfg.controls(nd):
+                if "not in store" in norm(test) or " in store" in norm(test):
+                    continue  # whether the output already has an array
+                atoms += bool_atoms(d.resolve(test))
+        if not atoms:
+            continue
+        n += 1
+        other = [a for a in atoms if "run_folder" not in a]
+        ctx.add("5-persist", f, c, not other, "a single output is kept in memory only when there is no run folder" if not other else
+                f"whether a single output is kept in memory (DirectValue) depends on `{other[0][:60]}`, not only on the run folder: with a run folder and that condition the output of a function without MapSpec is never written "
+                "(the persist step at the end of the run only handles arrays) - load_outputs returns None for it", key="single-outputs-on-disk")
+    if not n:
+        ctx.add("5-persist", f, f.node, None, "UNDECIDED: the choice between a file path and DirectValue in init_store was not recognised", key="single-outputs-on-disk")
 
 
 def rule_rebuild(ctx: Ctx) -> None:
@@ -624,7 +721,7 @@ def rule_byte_codec(ctx: Ctx) -> None:
 
 
 def check(ctx: Ctx) -> None:
-    for rule in (rule_table, rule_fresh_load, rule_paths, rule_path_names, rule_process, rule_rebuild, rule_persist, rule_byte_codec, rule_load_from_given_folder, rule_record_always_written):
+    for rule in (rule_table, rule_whole_name_membership, rule_fresh_load, rule_paths, rule_path_names, rule_process, rule_rebuild, rule_single_outputs_on_disk, rule_persist, rule_byte_codec, rule_load_from_given_folder, rule_record_always_written):
         ctx.run(rule)
 
 
